@@ -184,6 +184,23 @@ Example nan_compares_equal_to_everything :
   binary_op KGe (VNum NaN) (VNum d_1) = Ok (VBool true).
 Proof. exact DecOrder.nan_compares_equal_to_everything. Qed.
 
+(* Go integers that reach == without having been normalised (below a member, inside an array) are compared as Go
+   interface values: equal only when value AND Go type are the same - uint(5) and uint64(5) differ *)
+Theorem goint_eq_iff : forall k k' x y,
+  binary_op KEqEq (VGoInt k x) (VGoInt k' y) = Ok (VBool true) <-> (x = y /\ k = k').
+Proof. exact DecOrder.goint_eq_iff. Qed.
+
+Theorem goint_strict_eq : forall k k' x y,
+  binary_op KEqEqEq (VGoInt k x) (VGoInt k' y) = Ok (VBool ((x =? y)%Z && gokind_eqb k k')).
+Proof. exact DecOrder.goint_strict_eq. Qed.
+
+Example goint_eq_examples :
+  binary_op KEqEq (VGoInt GUint 5) (VGoInt GUint64 5) = Ok (VBool false) /\
+  binary_op KEqEqEq (VGoInt GInt8 5) (VGoInt GInt16 5) = Ok (VBool false) /\
+  binary_op KEqEq (VGoInt GUint8 5) (VGoInt GUint8 5) = Ok (VBool true) /\
+  binary_op KNe (VGoInt GUint 5) (VGoInt GUint64 5) = Ok (VBool true).
+Proof. exact DecOrder.goint_eq_examples. Qed.
+
 Print Assumptions nan_compares_equal_to_everything.
 Print Assumptions equality_instances.
 Print Assumptions lex_instances.
@@ -210,3 +227,6 @@ Print Assumptions ne_is_negation.
 Print Assumptions strict_ne_is_negation.
 Print Assumptions loose_eq_same_kind.
 Print Assumptions eq_same_kind_is_strict.
+Print Assumptions goint_eq_iff.
+Print Assumptions goint_strict_eq.
+Print Assumptions goint_eq_examples.
